@@ -802,8 +802,13 @@ func (p *InlineParser) parseEndBracket(state *inlineState, start int) (end int) 
 		}
 	}
 
+	isCollapsed := start+2 < state.spanEnd() && state.source[start+1] == '[' && state.source[start+2] == ']'
+	label := linkLabel{NullSpan(), NullSpan()}
+	if !isCollapsed && start+1 < state.spanEnd() && state.source[start+1] == '[' {
+		label = parseLinkLabel(newInlineByteReader(state.source, state.unparsed[state.unparsedPos:], start+1))
+	}
 	switch {
-	case start+2 < state.spanEnd() && state.source[start+1] == '[' && state.source[start+2] == ']':
+	case isCollapsed:
 		// Collapsed reference link.
 
 		// Since we're backtracking, we use the full state.unparsed rather than a slice.
@@ -832,20 +837,8 @@ func (p *InlineParser) parseEndBracket(state *inlineState, start int) (end int) 
 		linkNode.span.End = start + 3
 		p.finishLink(state, kind, openDelimIndex)
 		return linkNode.span.End
-	case start+1 < state.spanEnd() && state.source[start+1] == '[':
+	case label.span.IsValid():
 		// Full reference link.
-		label := parseLinkLabel(newInlineByteReader(state.source, state.unparsed[state.unparsedPos:], start+1))
-		if !label.span.IsValid() {
-			state.addToRoot(&Inline{
-				kind: TextKind,
-				span: Span{
-					Start: start,
-					End:   start + 1,
-				},
-			})
-			state.stack = deleteDelimiterStack(state.stack, openDelimIndex, openDelimIndex+1)
-			return start + 1
-		}
 		inlineLabel := &Inline{
 			kind: LinkLabelKind,
 			span: label.span,
